@@ -196,8 +196,9 @@ def rebase_human_intraline_edit(trace, viol):
 
 @predicate("reset_multi_commit")
 def reset_multi_commit(trace, viol):
-    """reset --soft/--mixed HEAD~k then re-commit, where k >= 2 or the un-done commits contain a
-    human intra-line or whitespace-only edit of lines next to AI lines"""
+    """reset --soft/--mixed HEAD~k then re-commit, where k >= 2 or the history before the reset contains a
+    human intra-line, whitespace-only or REPLACING edit of lines next to AI lines (the reconstruction matches the
+    un-done commits' lines against the work tree by position / content and credits the person's replacement lines)"""
     if viol.get("class") not in LEDGER_CLASSES:
         return False
 
@@ -210,7 +211,8 @@ def reset_multi_commit(trace, viol):
         return False
     a = _ops(trace)[rs]["argv"]
     k = max([int(x[5:]) for x in a if x.startswith("HEAD~") and x[5:].isdigit()] or [1])
-    human_ws = any(o.get("op") == "edit" and o.get("who") == "human" and (o.get("desc") or {}).get("kind") in ("reindent", "modify")
+    human_ws = any(o.get("op") == "edit" and o.get("who") == "human" and
+                   (o.get("desc") or {}).get("kind") in ("reindent", "modify", "modify_part", "replace")
                    for o in _ops(trace)[:rs])
     return k >= 2 or human_ws
 
